@@ -207,6 +207,15 @@ let () =
               let c = c_case sx in
               if check_case mask c then ()
               else begin incr bad; Printf.printf "MISMATCH %d %s\n" !i (show_view c) end
+          | C ("mkTCase", [md; str; pairs; is]) ->
+              let c = { t_md = c_mode md; t_s = c_str str; t_pairs = c_list (c_pair c_str (c_list c_str)) pairs; t_is = c_bool is } in
+              if check_tcase c then ()
+              else begin
+                incr bad;
+                let (ps, b) = is_option c.t_md c.t_s in
+                Printf.printf "MISMATCH %d tokenizer input=%s model=(%s,%b)\n" !i (show_str c.t_s)
+                  (show_list (fun p -> show_str p.p_name ^ ":" ^ show_list show_str p.p_args) ps) b
+              end
           | _ -> incr bad; Printf.printf "MISMATCH %d unknown case form\n" !i);
          incr i
        end
